@@ -55,6 +55,9 @@ CHECKS = {
     "C05": ("exploration", "runtime monitoring: metamorphic inequality of identities across single-point semantic mutations (all operators at all positions) + UUID uniqueness",
             "For every generated configuration every applicable mutation operator is applied at every applicable position (processor, parameter value at depth 0/1/2, node delete/duplicate/swap, and inside a sweep: wrapped processor, non-equivalent expression established by evaluation, variable bound/steps/scale/endpoint/sequence element/from_context key, mode, broadcast); semantic ID and config ID must both change and the affected node's UUID or node semantic ID must change; node UUIDs within a pipeline must be unique, textually identical duplicates included. Held = no surviving mutation on the pairs observed.",
             "No second collection type exists in the library, so the sweep-collection operator is not generated (stated in the evidence).", "DESIGN.md §4 C05"),
+    "C18": ("exploration", "runtime monitoring: growth monitor over long histories — registry sizes and gc-tracked object counts sampled after runs 50/150/450 in fresh subprocesses, with reachability attribution of new objects to known roots",
+            "Generated pipelines (covering shorthands, IO adapters, sweeps, slicers, probes, context processors) are run repeatedly in the four ways of repeating a run (one reused Pipeline, fresh Pipelines, a run-space launch through the in-process CLI, a queue worker fed N jobs), each in a fresh subprocess; after gc.collect() at runs 50/150/450 the sizes of 13 process-wide registries must be equal and the object-count slope below 0.5 objects/run. New objects are attributed by gc.get_referents reachability to {classes registered since (by creating factory), queued transport messages, transport channel table}; whatever is reachable from none of these must obey the bound on its own, which keeps the check sharp while the three baseline findings (F17-F19) are open. Held = no unlisted growth on the histories observed.",
+            "Counts, never time. Growth of untracked objects is visible only through registry sizes. Seven baseline mechanisms are listed as open known findings.", "DESIGN.md §4 C18"),
 }
 
 NOT_BUILT_REASON = "check not implemented yet in this round (work in progress; see DESIGN.md §4 for the planned monitor)"
